@@ -422,7 +422,14 @@ func c09gen(c *h.Ctx, yield func(*h.Case)) {
 		if r.Intn(2) == 0 {
 			ops = append(ops, "c09 send router 1 1")
 		}
-		ops = append(ops, fmt.Sprintf("c09 backlog 1 %d %d", 330+r.Intn(60), 24+r.Intn(40)), "c09 conns 1",
+		// two out of three: more messages than the two queues of the connection hold, so that some
+		// senders wait inside the transport; else: a backlog that just fits (the stopping router then
+		// closes a connection whose queues are full — the dead-lock fixed by /repo 7764c04)
+		fill, snd := 360+r.Intn(30), 44+r.Intn(20)
+		if i%3 == 2 {
+			fill, snd = 300+r.Intn(60), 8+r.Intn(16)
+		}
+		ops = append(ops, fmt.Sprintf("c09 backlog 1 %d %d", fill, snd), "c09 conns 1",
 			"c09 send router 2 1", "c09 send router 1 1", "c09 up 1", "c09 send router 1 2", "c09 conns 1")
 		emit("backlog-local", ops...)
 	}
